@@ -230,6 +230,12 @@ func (prop) Run(t *testing.T, tape *kernel.Tape, sc kernel.Scenario) *kernel.Res
 	case 3:
 		defCreds = mk()
 	}
+	// multi-step: the default credential was different during an earlier call on the same Runtime
+	var earlierDefault []cred
+	if len(defCreds) > 0 && tape.Bool(3, "rotated-default") {
+		earlierDefault = mk()
+		env.Fault("default-credential-rotated")
+	}
 	preset := ""
 	if mode == 3 {
 		pc := genCred([]string{"basic", "bearer"}[tape.Choose(2, "preset-kind")])
@@ -434,8 +440,15 @@ func (prop) Run(t *testing.T, tape *kernel.Tape, sc kernel.Scenario) *kernel.Res
 			}
 			return client.Compose(ws...)
 		}
-		if len(defCreds) > 0 {
-			rt.DefaultAuthentication = compose(defCreds)
+		var warmup func()
+		if len(earlierDefault) > 0 {
+			rt.DefaultAuthentication = compose(earlierDefault)
+			warmup = func() {
+				_, _ = rt.Submit(&runtime.ClientOperation{ID: "secured", Method: method, PathPattern: "/secured", Schemes: []string{"http"},
+					ProducesMediaTypes: []string{"application/json"}, ConsumesMediaTypes: []string{"application/json"},
+					Params: runtime.ClientRequestWriterFunc(func(req runtime.ClientRequest, _ strfmt.Registry) error { return req.SetHeaderParam("X-Req", "0") }),
+					Reader: runtime.ClientResponseReaderFunc(func(runtime.ClientResponse, runtime.Consumer) (any, error) { return nil, nil })})
+			}
 		}
 		cop := &runtime.ClientOperation{ID: "secured", Method: method, PathPattern: "/secured", Schemes: []string{"http"},
 			ProducesMediaTypes: []string{"application/json"}, ConsumesMediaTypes: op.Consumes,
@@ -463,7 +476,20 @@ func (prop) Run(t *testing.T, tape *kernel.Tape, sc kernel.Scenario) *kernel.Res
 		if len(opCreds) > 0 {
 			cop.AuthInfo = compose(opCreds)
 		}
-		k.Go("caller", func() { submitPanic = kernel.Catch(func() { _, submitErr = rt.Submit(cop) }) })
+		k.Go("caller", func() {
+			submitPanic = kernel.Catch(func() {
+				if warmup != nil {
+					warmup()
+					// forget what the earlier call left behind on the server side
+					calls, rec.results = nil, nil
+					*world.Slots[0] = simapi.Obs{AuthScopes: map[string][]string{}}
+				}
+				if len(defCreds) > 0 {
+					rt.DefaultAuthentication = compose(defCreds)
+				}
+				_, submitErr = rt.Submit(cop)
+			})
+		})
 		k.Run()
 		if k.Stuck || k.Overrun {
 			res.Infra = "run did not finish"
